@@ -1938,10 +1938,19 @@ impl NodeMut for XmlElement {
             return Err(error::DomException::WrongDocumentErr)?;
         }
 
-        match self.element.borrow().delete(old_child.id()) {
-            Some(v) => Ok(XmlNode::from(v)),
+        let removed = match self.element.borrow().delete(old_child.id()) {
+            Some(v) => XmlNode::from(v),
             _ => Err(error::DomException::NotFoundErr)?,
+        };
+
+        // A merged text node stands for all of its pieces, not only for the first one.
+        if let XmlNode::ExpandedText(text) = old_child {
+            for piece in text.data.iter().skip(1) {
+                self.element.borrow().delete(piece.id());
+            }
         }
+
+        Ok(removed)
     }
 }
 
